@@ -1120,6 +1120,28 @@ class Explorer:
                 out[name] = None
         return out
 
+    def _generic_inputs(self):
+        """a second model of the path condition in which the real inputs are non-integers, pairwise different and not small: the
+        failure was observed on the whole path (e.g. the code raised), so any model is a witness; a generic one is the most
+        likely to show the failure on plain floats too"""
+        reals = [t for t in self.inputs.values() if z3.is_real(t)]
+        if not reals or len(reals) > 40:
+            return None
+        extra = []
+        for i, t in enumerate(reals):
+            extra.append(z3.Not(z3.IsInt(t * 2)))
+            extra.append(z3.Or(t > 1, t < -1) if i % 2 else t != 0)
+            for u in reals[:i]:
+                extra.append(t != u)
+                extra.append(t != -u)
+        try:
+            r = self._check(z3.And(*extra))
+        except Exception:
+            return None
+        if r != "sat":
+            return None
+        return self._model_inputs(self._last_model)
+
     def _current_inputs(self):
         m = self.model
         if m is None:
@@ -1142,6 +1164,9 @@ class Explorer:
             self.stats.checks_concrete += 1
             if not cond:
                 self._violate(label, key, self._current_inputs(), detail)
+                g = self._generic_inputs()
+                if g is not None:
+                    self._violate(label, key, g, detail)
             return bool(cond)
         self.stats.checks_smt += 1
         self._ensure_feasible()
@@ -1479,7 +1504,7 @@ class Concrete:
 
     def check(self, cond, label, key=None, required=True, detail=None):
         if not cond:
-            self.violations.append(Violation(label, key or label, None, detail))
+            self.violations.append(Violation(label, key or label, None, detail, kind="assert" if required else "optional"))
         return bool(cond)
 
     def check_eq(self, a, b, label, key=None, required=True, tol=None, detail=None):
@@ -1490,7 +1515,8 @@ class Concrete:
         except TypeError:
             ok = a == b
         if not ok:
-            self.violations.append(Violation(label, key or label, None, detail or "%r != %r" % (a, b)))
+            self.violations.append(Violation(label, key or label, None, detail or "%r != %r" % (a, b),
+                                             kind="assert" if required else "optional"))
         return ok
 
     def external(self, *a, **k):
@@ -1500,7 +1526,8 @@ class Concrete:
         tol = self.tol if tol is None else tol
         ok = a <= b + tol * (1 + abs(a) + abs(b))
         if not ok:
-            self.violations.append(Violation(label, key or label, None, detail or "%r > %r" % (a, b)))
+            self.violations.append(Violation(label, key or label, None, detail or "%r > %r" % (a, b),
+                                             kind="assert" if required else "optional"))
         return ok
 
     def run(self, fn, wall_s=20.0):
